@@ -362,9 +362,15 @@ func collectServed(ss *servedSet, ri sim.ReqInfo, resp any, start, limit uint64)
 	} else {
 		els = []any{resp}
 	}
+	_, isBatch := asArr(resp)
 	for i, e := range els {
 		m, ok := asObj(e)
 		if !ok {
+			continue
+		}
+		if isBatch && i >= ri.N {
+			// surplus elements after the requested ones are not data the caller asked
+			// for: the client may ignore them or refuse the response, whatever they hold
 			continue
 		}
 		if m["error"] != nil {
